@@ -52,7 +52,7 @@ def cases(tier, seed):
                 yield {"kind": "array", "shape": shape, "labels": lab, "names": None}
         for names in (["a", "_labels_"], ["_labels_"], ["_labels_", "b"], [5, 6], [None, "x"], ["", ""]):
             yield {"kind": "array", "shape": [2, 3][:len(names)], "labels": None, "names": names}
-        for pl in ("subarray", "unstructured", "nofields", "nested_struct", "object_field", "len0_subarray", "unicode_field"):
+        for pl in ("subarray", "unstructured", "nofields", "nested_struct", "object_field", "len0_subarray", "unicode_field", "scalar_record"):
             yield {"kind": "pl", "what": pl}
         for pla in ("zero_shape", "plain_dtype", "subarray"):
             yield {"kind": "pla", "what": pla}
@@ -110,7 +110,8 @@ def build_obj(case):
                 "nested_struct": lambda: np.zeros(2, dtype=[("p", [("a", "f8"), ("b", "f8")])]),
                 "object_field": lambda: np.zeros(2, dtype=[("o", "O")]),
                 "len0_subarray": lambda: np.zeros(0, dtype=[("x", "f8", (2,))]),
-                "unicode_field": lambda: np.zeros(2, dtype=[("s", "U3")])}[w]()
+                "unicode_field": lambda: np.zeros(2, dtype=[("s", "U3")]),
+                "scalar_record": lambda: np.zeros((), dtype=[("x", "f8"), ("y", "i4")])}[w]()
         r = emdfile.Root(name="r")
         r.tree(emdfile.PointList(data, name="pl"))
         return r
@@ -274,6 +275,7 @@ KNOWN_CLASSES = {
                                                              "((1, 2), [3, 4])", "((), ())", "(1, (2, 3))"),
     "C15-K5": lambda c: (c["kind"] == "pl" and c["what"] in ("subarray", "nofields", "nested_struct", "len0_subarray", "unstructured")) or
                         (c["kind"] == "pla" and c["what"] == "subarray"),
+    "C15-K8": lambda c: c["kind"] == "pl" and c["what"] == "scalar_record",
     "C15-K6": lambda c: c["kind"] == "name" and c["what"] == "pl_field" and c["name"] == "metadatabundle",
 }
 
